@@ -14,6 +14,8 @@ def units(tier):
     from contracts import fidelity as F
     for s in ['plain-small', 'hard-links', 'many-files', 'joliet-unicode'] + F.random_names(tier, ['plain', 'rr112-joliet-xa'], 1, 10):
         us.append(Unit(F.Reopened, {'script': s, 'edit': False}))
+    # a transfer size below 1 is refused at every entry point (the precondition of the copy loop holds at its call sites)
+    us += [Unit(P.BlocksizeRefused, {'entry': e}) for e in ('_get_file_from_iso_fp', '_udf_get_file_from_iso_fp', '_get_and_write_fp', '_write_fp')]
     us += [Unit(P.CopyDataYield), Unit(P.InodeOpen, {'location': 1}), Unit(P.InodeOpen, {'location': 2}), Unit(P.InodeOpen, {'location': 2, 'managed': True})]
     return us
 
